@@ -358,7 +358,11 @@ func init() {
 		c := &fmtCtx{i: i, fr: fr}
 		f := c.strMark(format)
 		f = strings.ReplaceAll(f, "%w", "%v")
-		return c.finish(fmt.Sprintf(f, c.args(args)...))
+		nat := c.args(args)
+		if strings.Contains(f, "T") {
+			f = fixTypeVerbs(f, args.([]value), nat)
+		}
+		return c.finish(fmt.Sprintf(f, nat...))
 	}
 	sprint := func(i *Interp, fr *frame, args value, ln bool) value {
 		c := &fmtCtx{i: i, fr: fr}
@@ -409,4 +413,49 @@ func init() {
 	reg("log.Println", func(i *Interp, fr *frame, a []value) value { return nil })
 	reg("log.Printf", func(i *Interp, fr *frame, a []value) value { return nil })
 	reg("log.Print", func(i *Interp, fr *frame, a []value) value { return nil })
+}
+
+// fixTypeVerbs rewrites %T verbs: the corresponding argument becomes the Go type name of the
+// interpreted value and the verb becomes %s.
+func fixTypeVerbs(f string, args []value, nat []interface{}) string {
+	var sb strings.Builder
+	argi := 0
+	for k := 0; k < len(f); k++ {
+		if f[k] != '%' {
+			sb.WriteByte(f[k])
+			continue
+		}
+		start := k
+		k++
+		if k < len(f) && f[k] == '%' {
+			sb.WriteString("%%")
+			continue
+		}
+		for k < len(f) && strings.IndexByte("+-# 0123456789.*[]", f[k]) >= 0 {
+			if f[k] == '*' {
+				argi++
+			}
+			if f[k] == '[' {
+				return f // explicit argument indexes: leave untouched
+			}
+			k++
+		}
+		if k >= len(f) {
+			sb.WriteString(f[start:])
+			break
+		}
+		if f[k] == 'T' && argi < len(args) {
+			name := "<nil>"
+			if it, ok := args[argi].(iface); ok && it.t != nil {
+				name = types.TypeString(it.t, func(p *types.Package) string { return p.Name() })
+			}
+			nat[argi] = name
+			sb.WriteString(f[start:k])
+			sb.WriteByte('s')
+		} else {
+			sb.WriteString(f[start : k+1])
+		}
+		argi++
+	}
+	return sb.String()
 }
